@@ -299,6 +299,17 @@ Qed.
 Lemma nthK_In (l : list R) j : (j < length l)%nat -> In (nthK l j) l.
 Proof. intros. unfold nthK. apply nth_In. assumption. Qed.
 
+Lemma nthL_map (f : list R -> list R) (l : list (list R)) i : (i < length l)%nat -> nthL (map f l) i = f (nthL l i).
+Proof.
+  intros Hi. unfold nthL. rewrite (nth_indep _ [] (f [])) by (rewrite map_length; exact Hi). apply map_nth.
+Qed.
+
+Lemma nth_skipn_R (k : nat) : forall (l : list R) i d, nth i (skipn k l) d = nth (k + i) l d.
+Proof.
+  induction k as [|k IH]; intros l i d0; [reflexivity|].
+  destruct l as [|a l]; [destruct i; reflexivity|]. cbn. apply IH.
+Qed.
+
 (* ------------------------------------------------------------------ vector form of the mmasub theorems *)
 Section Vec.
   Variable p : asypar R.
@@ -307,8 +318,8 @@ Section Vec.
   Variables xold1 xold2 offset : option (list R).
   Variable g : list R.
   Variable dg : list (list R).
-  Let n := length xval.
-  Let out := mmasub_vec p v xval xmin xmax move xold1 xold2 offset g dg.
+  Local Notation n := (length xval).
+  Local Notation out := (mmasub_vec p v xval xmin xmax move xold1 xold2 offset g dg).
 
   Hypothesis Hbox : forall j, (j < n)%nat -> nthK xmin j <= nthK xval j <= nthK xmax j /\ nthK xmin j < nthK xmax j.
   Hypothesis Hmove : forall j, (j < n)%nat -> 0 < nthK move j.
@@ -319,7 +330,7 @@ Section Vec.
 
   Lemma out_offset j : (j < n)%nat ->
     nthK (o_offset out) j = offset_step p (nthK xval j) (optnth xold1 j) (optnth xold2 j) (optnth offset j).
-  Proof. intros Hj. subst out. unfold mmasub_vec. cbn [o_offset]. rewrite nthK_map_seq by exact Hj. reflexivity. Qed.
+  Proof. intros Hj. unfold mmasub_vec. cbn [o_offset]. rewrite nthK_map_seq by exact Hj. reflexivity. Qed.
 
   Lemma out_offset_pos j : (j < n)%nat -> 0 < nthK (o_offset out) j.
   Proof.
@@ -329,22 +340,22 @@ Section Vec.
 
   Lemma out_alfa j : (j < n)%nat ->
     nthK (o_alfa out) j = alfa_of (albefa p) (nthK move j) (nthK xval j) (nthK xmin j) (nthK xmax j) (nthK (o_offset out) j).
-  Proof. intros Hj. subst out. unfold mmasub_vec. cbn [o_alfa o_offset]. rewrite nthK_map_seq by exact Hj. reflexivity. Qed.
+  Proof. intros Hj. unfold mmasub_vec. cbn [o_alfa o_offset]. rewrite nthK_map_seq by exact Hj. reflexivity. Qed.
   Lemma out_beta j : (j < n)%nat ->
     nthK (o_beta out) j = beta_of (albefa p) (nthK move j) (nthK xval j) (nthK xmin j) (nthK xmax j) (nthK (o_offset out) j).
-  Proof. intros Hj. subst out. unfold mmasub_vec. cbn [o_beta o_offset]. rewrite nthK_map_seq by exact Hj. reflexivity. Qed.
+  Proof. intros Hj. unfold mmasub_vec. cbn [o_beta o_offset]. rewrite nthK_map_seq by exact Hj. reflexivity. Qed.
   Lemma out_low j : (j < n)%nat ->
     nthK (o_low out) j = low_of (nthK xval j) (nthK xmin j) (nthK xmax j) (nthK (o_offset out) j).
-  Proof. intros Hj. subst out. unfold mmasub_vec. cbn [o_low o_offset]. rewrite nthK_map_seq by exact Hj. reflexivity. Qed.
+  Proof. intros Hj. unfold mmasub_vec. cbn [o_low o_offset]. rewrite nthK_map_seq by exact Hj. reflexivity. Qed.
   Lemma out_upp j : (j < n)%nat ->
     nthK (o_upp out) j = upp_of (nthK xval j) (nthK xmin j) (nthK xmax j) (nthK (o_offset out) j).
-  Proof. intros Hj. subst out. unfold mmasub_vec. cbn [o_upp o_offset]. rewrite nthK_map_seq by exact Hj. reflexivity. Qed.
+  Proof. intros Hj. unfold mmasub_vec. cbn [o_upp o_offset]. rewrite nthK_map_seq by exact Hj. reflexivity. Qed.
 
   Lemma out_lengths : length (o_offset out) = n /\ length (o_low out) = n /\ length (o_upp out) = n /\
                       length (o_alfa out) = n /\ length (o_beta out) = n /\
                       length (o_P out) = length dg /\ length (o_Q out) = length dg /\ length (o_b out) = (length dg - 1)%nat.
   Proof.
-    subst out. unfold mmasub_vec, b_of_rhs. cbn [o_offset o_low o_upp o_alfa o_beta o_P o_Q o_b].
+    unfold mmasub_vec, b_of_rhs. cbn [o_offset o_low o_upp o_alfa o_beta o_P o_Q o_b].
     rewrite skipn_length. repeat rewrite map_length. repeat rewrite seq_length. repeat split; reflexivity.
   Qed.
 
@@ -362,4 +373,412 @@ Section Vec.
     repeat split;
       first [ apply box | apply move_limit | apply asymptotes_enclose | apply alfa_lt_beta ]; auto.
   Qed.
+
+  (* the shifts offset_j * (xmax_j - xmin_j) used by this call *)
+  Definition vshift := map (fun j => shift_c (nthK (o_offset out) j) (dx_c (nthK xmin j) (nthK xmax j))) (seq 0 n).
+  Notation sh := vshift.
+
+  Lemma sh_nth j : (j < n)%nat -> nthK sh j = nthK (o_offset out) j * (nthK xmax j - nthK xmin j).
+  Proof. intros Hj. unfold vshift. rewrite nthK_map_seq by exact Hj. reflexivity. Qed.
+  Lemma sh_length : length sh = n.
+  Proof. unfold vshift. rewrite map_length, seq_length. reflexivity. Qed.
+  Lemma sh_nonzero : List.Forall (fun s => s <> 0) sh.
+  Proof.
+    apply Forall_forall. intros s Hs. apply (In_nth _ _ nzero) in Hs as [j [Hj <-]]. rewrite sh_length in Hj.
+    fold (nthK sh j). rewrite sh_nth by exact Hj.
+    destruct (Hbox j Hj) as [_ B]. pose proof (out_offset_pos j Hj) as O.
+    assert (0 < nthK (o_offset out) j * (nthK xmax j - nthK xmin j)) by (apply Rmult_lt_0_compat; lra). lra.
+  Qed.
+
+  Lemma out_upp_vec : o_upp out = vmap2 Rplus xval sh.
+  Proof.
+    rewrite <- map_seq_vmap2 by (rewrite sh_length; reflexivity).
+    unfold mmasub_vec at 1. cbn [o_upp]. apply map_ext_in. intros j Hj. apply in_seq in Hj.
+    rewrite sh_nth by lia. unfold upp_of, upp_c, shift_c, dx_c; ops.
+    unfold mmasub_vec. cbn [o_offset]. reflexivity.
+  Qed.
+  Lemma out_low_vec : o_low out = vmap2 Rminus xval sh.
+  Proof.
+    rewrite <- map_seq_vmap2 by (rewrite sh_length; reflexivity).
+    unfold mmasub_vec at 1. cbn [o_low]. apply map_ext_in. intros j Hj. apply in_seq in Hj.
+    rewrite sh_nth by lia. unfold low_of, low_c, shift_c, dx_c; ops.
+    unfold mmasub_vec. cbn [o_offset]. reflexivity.
+  Qed.
+
+  Lemma out_P_row i : (i < length dg)%nat ->
+    nthL (o_P out) i = map (fun j => P_of v (nthK xmin j) (nthK xmax j) (nthK (o_offset out) j) (nthK (nthL dg i) j)) (seq 0 n).
+  Proof.
+    intros Hi. unfold mmasub_vec. cbn [o_P o_offset]. rewrite nthL_map by exact Hi. reflexivity.
+  Qed.
+  Lemma out_Q_row i : (i < length dg)%nat ->
+    nthL (o_Q out) i = map (fun j => Q_of v (nthK xmin j) (nthK xmax j) (nthK (o_offset out) j) (nthK (nthL dg i) j)) (seq 0 n).
+  Proof.
+    intros Hi. unfold mmasub_vec. cbn [o_Q o_offset]. rewrite nthL_map by exact Hi. reflexivity.
+  Qed.
+
+  Lemma out_b i : (S i < length dg)%nat ->
+    nthK (o_b out) i = rhs_row sh (nthL (o_P out) (S i)) (nthL (o_Q out) (S i)) (nthK g (S i)).
+  Proof.
+    intros Hi. unfold vshift. unfold mmasub_vec, b_of_rhs. cbn [o_b o_P o_Q o_offset].
+    unfold nthK at 1. rewrite nth_skipn_R.
+    match goal with |- nth ?k ?l _ = _ => change (nth k l nzero) with (nthK l k) end.
+    rewrite nthK_map_seq by lia. reflexivity.
+  Qed.
+
+  (* C10_approx_value: constraint i (row i+1 of P, Q, g) -- the approximation handed to subsolv takes the value
+     g_(i+1) at xval *)
+  Theorem vec_approx_value i : (S i < length dg)%nat ->
+    approx (nthL (o_P out) (S i)) (nthL (o_Q out) (S i)) (o_upp out) (o_low out) xval - nthK (o_b out) i = nthK g (S i).
+  Proof.
+    intros Hi. rewrite out_b by exact Hi. rewrite out_upp_vec, out_low_vec.
+    apply approx_value_gen.
+    - apply sh_length.
+    - rewrite out_P_row by lia. rewrite map_length, seq_length. reflexivity.
+    - rewrite out_Q_row by lia. rewrite map_length, seq_length. reflexivity.
+    - apply sh_nonzero.
+  Qed.
+
+  (* C10_approx_gradient / C10_approx_convex for every entry (response i, variable j) of the matrices handed to subsolv *)
+  Theorem vec_approx_gradient i j : (i < length dg)%nat -> (j < n)%nat ->
+    let pij := nthK (nthL (o_P out) i) j in let qij := nthK (nthL (o_Q out) i) j in
+    is_derive (fun t => approx_term pij qij (nthK (o_upp out) j) (nthK (o_low out) j) t) (nthK xval j) (nthK (nthL dg i) j)
+    /\ 0 <= pij /\ 0 <= qij /\ (v = V2007 -> 0 < pij /\ 0 < qij).
+  Proof.
+    intros Hi Hj. cbv zeta. rewrite out_P_row, out_Q_row by exact Hi. rewrite !nthK_map_seq by exact Hj.
+    rewrite out_upp, out_low by exact Hj.
+    destruct (Hbox j Hj) as [_ B]. pose proof (out_offset_pos j Hj) as O.
+    split; [apply approx_gradient; assumption|].
+    pose proof (coef_nonneg (nthK xmin j) (nthK xmax j) (nthK (o_offset out) j) (nthK (nthL dg i) j) B O v) as [C1 C2].
+    split; [assumption | split; [assumption | intros ->; apply coef_pos_2007; assumption]].
+  Qed.
 End Vec.
+
+(* ------------------------------------------------------------------ subsolv: the iterates stay strictly interior *)
+Definition pos_list (l : list R) : Prop := List.Forall (fun v => 0 < v) l.
+Definition x_inside (alfa beta x : list R) : Prop :=
+  length x = length alfa /\ length x = length beta /\
+  forall j, (j < length x)%nat -> nthK alfa j < nthK x j < nthK beta j.
+(* alfa < x < beta and y, z, lam, xsi, eta, mu, zet, s > 0 *)
+Definition interior (D : sdata R) (st : sstate R) : Prop :=
+  x_inside (d_alfa D) (d_beta D) (sx st) /\ pos_list (sy st) /\ 0 < sz st /\ pos_list (slam st) /\
+  pos_list (sxsi st) /\ pos_list (seta st) /\ pos_list (smu st) /\ 0 < szet st /\ pos_list (ss st).
+
+Lemma step_core a b t m : 0 < a -> 0 < t -> m <= b / a -> t * (- (101 / 100) * m) <= 1 -> 0 < a + t * b.
+Proof.
+  intros Ha Ht Hm Hs. remember (b / a) as r eqn:Er.
+  assert (b = r * a) as Eb by (subst r; field; lra). rewrite Eb.
+  assert (t * m <= t * r) by (apply Rmult_le_compat_l; lra).
+  assert (0 < a * (1 + t * r)) by (apply Rmult_lt_0_compat; lra). lra.
+Qed.
+Lemma step_core_up a b t M : 0 < a -> 0 < t -> b / a <= M -> t * (101 / 100 * M) <= 1 -> 0 < a - t * b.
+Proof.
+  intros Ha Ht Hm Hs. remember (b / a) as r eqn:Er.
+  assert (b = r * a) as Eb by (subst r; field; lra). rewrite Eb.
+  assert (t * r <= t * M) by (apply Rmult_le_compat_l; lra).
+  assert (0 < a * (1 - t * r)) by (apply Rmult_lt_0_compat; lra). lra.
+Qed.
+
+Lemma adv_vec_cons a v b dv t : adv_vec (a :: v) (b :: dv) t = (a + t * b) :: adv_vec v dv t.
+Proof. reflexivity. Qed.
+
+Lemma adv_vec_pos v : forall dv t, (forall a b, In (a, b) (combine v dv) -> 0 < a + t * b) -> pos_list (adv_vec v dv t).
+Proof.
+  induction v as [|a v IH]; intros dv t Hc; [constructor|].
+  destruct dv as [|b dv]; [constructor|]. rewrite adv_vec_cons. constructor.
+  - apply Hc. left. reflexivity.
+  - apply IH. intros a' b' Hin. apply Hc. right. exact Hin.
+Qed.
+
+Lemma In_ratio v : forall dv a b, In (a, b) (combine v dv) -> In (b / a) (vmap2 Rdiv dv v).
+Proof.
+  induction v as [|a0 v IH]; intros dv a b Hin; [destruct Hin|].
+  destruct dv as [|b0 dv]; [destruct Hin|]. unfold vmap2. cbn [combine map fst snd].
+  destruct Hin as [E | Hin]; [injection E as -> ->; left; reflexivity | right; apply (IH dv a b Hin)].
+Qed.
+
+Lemma pos_step_vec v dv t : pos_list v -> 0 < t -> t * stm_vec v dv <= 1 -> pos_list (adv_vec v dv t).
+Proof.
+  intros Hp Ht Hs. apply adv_vec_pos. intros a b Hin.
+  assert (0 < a) as Ha by (apply (proj1 (Forall_forall _ _) Hp); eapply in_combine_l; exact Hin).
+  apply (step_core a b t (lmin (vmap2 Rdiv dv v)) Ha Ht).
+  - apply lmin_le, In_ratio, Hin.
+  - revert Hs. unfold stm_vec, dec; ops. intros Hs. exact Hs.
+Qed.
+
+Lemma pos_step_sc v dv t : 0 < v -> 0 < t -> t * stm_sc v dv <= 1 -> 0 < adv_sc v dv t.
+Proof.
+  intros Hv Ht Hs. unfold adv_sc; ops. apply (step_core v dv t (dv / v) Hv Ht); [lra|].
+  revert Hs. unfold stm_sc, dec; ops. intros Hs.
+  replace (- (101 / 100) * (dv / v)) with (- (101 / 100) * dv / v) by (field; lra). exact Hs.
+Qed.
+
+Lemma length_adv_vec v dv t : length dv = length v -> length (adv_vec v dv t) = length v.
+Proof. intros E. unfold adv_vec. rewrite length_vmap2; [reflexivity | rewrite map_length; auto]. Qed.
+
+Lemma nthK_adv_vec v dv t j : (j < length v)%nat -> length dv = length v ->
+  nthK (adv_vec v dv t) j = nthK v j + t * nthK dv j.
+Proof.
+  intros Hj E. unfold adv_vec. rewrite nthK_vmap2 by (rewrite ?map_length; auto).
+  rewrite nthK_map by lia. reflexivity.
+Qed.
+
+Lemma x_step alfa beta x dx t : x_inside alfa beta x -> length dx = length x -> 0 < t ->
+  t * stmalfa_of alfa x dx <= 1 -> t * stmbeta_of beta x dx <= 1 -> x_inside alfa beta (adv_vec x dx t).
+Proof.
+  intros [L1 [L2 Hin]] Ld Ht Ha Hb. unfold x_inside. rewrite length_adv_vec by exact Ld.
+  split; [exact L1 | split; [exact L2|]]. intros j Hj. rewrite nthK_adv_vec by auto.
+  destruct (Hin j Hj) as [I1 I2].
+  assert (length (vmap2 Rminus x alfa) = length x) as La by (apply length_vmap2; exact L1).
+  assert (length (vmap2 Rminus beta x) = length x) as Lb by (rewrite length_vmap2; auto).
+  split.
+  - enough (0 < (nthK x j - nthK alfa j) + t * nthK dx j) by lra.
+    apply (step_core _ _ t (lmin (vmap2 Rdiv dx (vmap2 Rminus x alfa)))); [lra | exact Ht | |].
+    + apply lmin_le.
+      replace (nthK dx j / (nthK x j - nthK alfa j)) with (nthK (vmap2 Rdiv dx (vmap2 Rminus x alfa)) j).
+      * apply nthK_In. rewrite length_vmap2; lia.
+      * rewrite nthK_vmap2 by lia. rewrite nthK_vmap2 by lia. reflexivity.
+    + revert Ha. unfold stmalfa_of, dec; ops. intros Ha. exact Ha.
+  - enough (0 < (nthK beta j - nthK x j) - t * nthK dx j) by lra.
+    apply (step_core_up _ _ t (lmax (vmap2 Rdiv dx (vmap2 Rminus beta x)))); [lra | exact Ht | |].
+    + apply lmax_ge.
+      replace (nthK dx j / (nthK beta j - nthK x j)) with (nthK (vmap2 Rdiv dx (vmap2 Rminus beta x)) j).
+      * apply nthK_In. rewrite length_vmap2; lia.
+      * rewrite nthK_vmap2 by lia. rewrite nthK_vmap2 by lia. reflexivity.
+    + revert Hb. unfold stmbeta_of, dec; ops. intros Hb. exact Hb.
+Qed.
+
+(* every bound stm* is below the denominator of steg, which is at least 1 *)
+Lemma steg_bounds stmxx stmalfa stmbeta t : 0 < t <= steg_of stmxx stmalfa stmbeta ->
+  t * stmxx <= 1 /\ t * stmalfa <= 1 /\ t * stmbeta <= 1 /\ t <= 1.
+Proof.
+  unfold steg_of; ops. set (M := Rmax (Rmax (Rmax stmalfa stmbeta) stmxx) 1). intros [Ht Hs].
+  assert (1 <= M) by apply Rmax_r.
+  assert (stmxx <= M) by (subst M; eapply Rle_trans; [apply Rmax_r | apply Rmax_l]).
+  assert (stmalfa <= M) by (subst M; eapply Rle_trans; [|apply Rmax_l]; eapply Rle_trans; [|apply Rmax_l]; apply Rmax_l).
+  assert (stmbeta <= M) by (subst M; eapply Rle_trans; [|apply Rmax_l]; eapply Rle_trans; [|apply Rmax_l]; apply Rmax_r).
+  assert (t * M <= 1).
+  { apply Rmult_le_reg_r with (/ M); [apply Rinv_0_lt_compat; lra|].
+    rewrite Rmult_assoc, Rinv_r by lra. unfold Rdiv in Hs. lra. }
+  repeat split; try (apply Rle_trans with (t * M); [apply Rmult_le_compat_l; lra | assumption]).
+  apply Rle_trans with (t * M); [|assumption]. rewrite <- (Rmult_1_r t) at 1. apply Rmult_le_compat_l; lra.
+Qed.
+
+Lemma stmxx_bounds a b c d e f g h : let M := stmxx_of a b c d e f g h in
+  a <= M /\ b <= M /\ c <= M /\ d <= M /\ e <= M /\ f <= M /\ g <= M /\ h <= M.
+Proof. cbv zeta. unfold stmxx_of; ops. mm; lra. Qed.
+
+(* C10_subsolv_interior: one trial point of the line search.  The direction d is arbitrary. *)
+Theorem step_interior D st d t : interior D st -> length (sx d) = length (sx st) ->
+  0 < t <= step_length D st d -> interior D (advance st d t).
+Proof.
+  intros [Ix [Iy [Iz [Il [Ixs [Ie [Im [Izt Is]]]]]]]] Ld Ht.
+  assert (0 < t) as Ht0 by lra.
+  unfold step_length in Ht. apply steg_bounds in Ht as [Hxx [Ha [Hb _]]].
+  match type of Hxx with _ * stmxx_of ?a ?b ?c ?d0 ?e ?f ?g ?h <= 1 => pose proof (stmxx_bounds a b c d0 e f g h) as SB end.
+  cbv zeta in SB. destruct SB as [B1 [B2 [B3 [B4 [B5 [B6 [B7 B8]]]]]]].
+  assert (forall s, s <= stmxx_of (stm_vec (sy st) (sy d)) (stm_sc (sz st) (sz d)) (stm_vec (slam st) (slam d))
+                         (stm_vec (sxsi st) (sxsi d)) (stm_vec (seta st) (seta d)) (stm_vec (smu st) (smu d))
+                         (stm_sc (szet st) (szet d)) (stm_vec (ss st) (ss d)) -> t * s <= 1) as Hle.
+  { intros s Hs. eapply Rle_trans; [apply Rmult_le_compat_l; [lra | exact Hs] | exact Hxx]. }
+  unfold interior, advance; cbn [sx sy sz slam sxsi seta smu szet ss].
+  split; [apply x_step; auto|].
+  split; [apply pos_step_vec; auto|].
+  split; [apply pos_step_sc; auto|].
+  split; [apply pos_step_vec; auto|].
+  split; [apply pos_step_vec; auto|].
+  split; [apply pos_step_vec; auto|].
+  split; [apply pos_step_vec; auto|].
+  split; [apply pos_step_sc; auto|].
+  apply pos_step_vec; auto.
+Qed.
+
+Lemma step_length_pos D st d : 0 < step_length D st d.
+Proof.
+  unfold step_length, steg_of; ops.
+  match goal with |- 0 < _ / ?M => assert (1 <= M) by apply Rmax_r end.
+  apply Rdiv_lt_0_compat; lra.
+Qed.
+
+(* ---- initial point *)
+Lemma length_vmap3 (f : R -> R -> R -> R) a : forall b c, length b = length a -> length c = length a ->
+  length (vmap3 f a b c) = length a.
+Proof.
+  induction a as [|x a IH]; intros b c Lb Lc; [reflexivity|].
+  destruct b as [|y b]; [discriminate|]. destruct c as [|z c]; [discriminate|]. cbn. f_equal. apply IH; cbn in *; lia.
+Qed.
+Lemma nthK_vmap3 (f : R -> R -> R -> R) a : forall b c j, length b = length a -> length c = length a -> (j < length a)%nat ->
+  nthK (vmap3 f a b c) j = f (nthK a j) (nthK b j) (nthK c j).
+Proof.
+  induction a as [|x a IH]; intros b c j Lb Lc Hj; [cbn in Hj; lia|].
+  destruct b as [|y b]; [discriminate|]. destruct c as [|z c]; [discriminate|].
+  destruct j as [|j]; [reflexivity|]. unfold nthK in *. cbn [vmap3 nth]. apply IH; cbn in *; lia.
+Qed.
+
+Lemma pos_ones m : pos_list (ones m).
+Proof. unfold pos_list, ones. apply Forall_forall. intros x Hx. apply repeat_spec in Hx. subst. ops. lra. Qed.
+Lemma pos_max1_l (l : list R) : pos_list (map (fun v => nmax v (nofZ 1)) l).
+Proof.
+  apply Forall_forall. intros x Hx. apply in_map_iff in Hx as [y [<- _]]. ops.
+  pose proof (Rmax_r y 1). lra.
+Qed.
+Lemma pos_max1_r (l : list R) : pos_list (map (fun v => nmax (nofZ 1) v) l).
+Proof.
+  apply Forall_forall. intros x Hx. apply in_map_iff in Hx as [y [<- _]]. ops.
+  pose proof (Rmax_l 1 y). lra.
+Qed.
+
+(* the hard-coded margin of the initial point *)
+Definition margin : R := 1 / 10000000000.
+
+Theorem init_interior D x0 :
+  length (d_alfa D) = length (d_beta D) ->
+  match x0 with
+  | Some v => length v = length (d_alfa D) /\
+              forall j, (j < length v)%nat -> nthK (d_alfa D) j + 2 * margin <= nthK (d_beta D) j
+  | None => forall j, (j < length (d_alfa D))%nat -> nthK (d_alfa D) j < nthK (d_beta D) j
+  end ->
+  interior D (init_state D x0).
+Proof.
+  intros Lab Hx. unfold interior, init_state. cbn [sx sy sz slam sxsi seta smu szet ss].
+  split.
+  - destruct x0 as [v|].
+    + destruct Hx as [Lv Hw]. unfold x_init_x0, x_inside.
+      rewrite length_vmap3 by (rewrite map_length; lia).
+      split; [exact Lv | split; [lia|]]. intros j Hj.
+      rewrite nthK_vmap3 by (rewrite ?map_length; lia). rewrite !nthK_map by lia.
+      specialize (Hw j Hj). revert Hw. unfold margin, clip, dec; ops. intros Hw. mm; lra.
+    + unfold x_init_mid, x_inside. rewrite map_length, length_vmap2 by exact Lab.
+      split; [reflexivity | split; [exact Lab|]]. intros j Hj.
+      rewrite nthK_map by (rewrite length_vmap2; auto). rewrite nthK_vmap2 by auto.
+      specialize (Hx j Hj). unfold dec; ops. lra.
+  - repeat split; try apply pos_ones; try (ops; lra).
+    + unfold xsi_init. apply pos_max1_l.
+    + unfold eta_init. apply pos_max1_l.
+    + unfold mu_init. apply pos_max1_r.
+Qed.
+
+(* ---- the loops *)
+Section LoopP.
+  Variable newton : sdata R -> R -> sstate R -> sstate R.
+  Variable norm : list R -> R.
+  Variable D : sdata R.
+  (* numpy shapes: the direction has the shape of the state (dx = -delx/diagx - ... is an n-vector) *)
+  Hypothesis newton_shape : forall e st, length (sx (newton D e st)) = length (sx st).
+
+  Lemma linesearch_interior fuel : forall epsi rn steg old d cur,
+    interior D old -> interior D cur -> length (sx d) = length (sx old) -> 0 < steg <= step_length D old d ->
+    interior D (linesearch norm D fuel epsi rn steg old d cur).
+  Proof.
+    induction fuel as [|f IH]; intros epsi rn steg old d cur Io Ic Ld Hs; cbn [linesearch]; [exact Ic|].
+    pose proof (step_interior D old d steg Io Ld Hs) as In.
+    destruct (ls_accept _ _); [exact In|].
+    apply IH; auto. unfold steg_next; ops. lra.
+  Qed.
+
+  Lemma newton_step_interior epsi st : interior D st -> interior D (newton_step newton norm D epsi st).
+  Proof.
+    intros I. unfold newton_step. apply linesearch_interior; auto.
+    pose proof (step_length_pos D st (newton D epsi st)). lra.
+  Qed.
+
+  Lemma inner_interior left : forall epsi st, interior D st -> interior D (fst (inner newton norm D left epsi st)).
+  Proof.
+    induction left as [|l IH]; intros epsi st I; cbn [inner]; destruct (nltb _ _); cbn [fst]; auto.
+    apply IH, newton_step_interior, I.
+  Qed.
+
+  Lemma outer_interior fuel : forall epsimin epsi st last ok r,
+    interior D st -> outer newton norm D fuel epsimin epsi st last ok = Some r -> interior D (fst (fst r)).
+  Proof.
+    induction fuel as [|f IH]; intros epsimin epsi st last ok r I E; cbn [outer] in E; destruct (outer_test _ _).
+    - discriminate.
+    - injection E as <-. exact I.
+    - eapply IH; [|exact E]. apply inner_interior, I.
+    - injection E as <-. exact I.
+  Qed.
+
+  (* C10_subsolv_interior: whatever the Newton directions and the acceptance decisions are, the point returned by
+     subsolv is strictly inside (alfa, beta) with positive multipliers and slacks *)
+  Theorem subsolv_interior fuel epsimin x0 r :
+    interior D (init_state D x0) -> subsolv newton norm D fuel epsimin x0 = Some r -> interior D (fst (fst r)).
+  Proof. intros I E. unfold subsolv in E. eapply outer_interior; eauto. Qed.
+
+  (* ---- exit condition *)
+  Lemma inner_exit left : forall epsi st st', inner newton norm D left epsi st = (st', true) ->
+    residumax (residual_st D epsi st') <= 9 / 10 * epsi.
+  Proof.
+    induction left as [|l IH]; intros epsi st st' E; cbn [inner] in E;
+      destruct (nltb (dec 9 10 * epsi)%num (residumax (residual_st D epsi st))) eqn:T.
+    - discriminate.
+    - injection E as <-. revert T. unfold dec; ops. unfold Rltb. destruct Rlt_dec; [discriminate | intros _; lra].
+    - eapply IH; exact E.
+    - injection E as <-. revert T. unfold dec; ops. unfold Rltb. destruct Rlt_dec; [discriminate | intros _; lra].
+  Qed.
+
+  Lemma outer_exit fuel : forall epsimin epsi st last ok st' e,
+    outer newton norm D fuel epsimin epsi st last ok = Some (st', e, true) ->
+    (ok = true -> residumax (residual_st D last st) <= 9 / 10 * last /\ epsimin < last /\ epsi = last / 10) ->
+    residumax (residual_st D e st') <= 9 / 10 * e /\ epsimin < e <= 10 * epsimin.
+  Proof.
+    induction fuel as [|f IH]; intros epsimin epsi st last ok st' e E Inv; cbn [outer] in E;
+      destruct (outer_test epsimin epsi) eqn:T.
+    - discriminate.
+    - injection E as <- <- ->. destruct (Inv eq_refl) as [I1 [I2 I3]].
+      revert T. unfold outer_test; ops. unfold Rltb. destruct Rlt_dec; [discriminate | intros _]. lra.
+    - eapply IH; [exact E|]. intros Ok.
+      destruct (inner newton norm D maxittt epsi st) as [s1 b1] eqn:Ei. cbn [fst snd] in *. subst b1.
+      split; [eapply inner_exit; exact Ei|].
+      revert T. unfold outer_test, epsi_next; ops. unfold Rltb. destruct Rlt_dec; [intros _ | discriminate]. lra.
+    - injection E as <- <- ->. destruct (Inv eq_refl) as [I1 [I2 I3]].
+      revert T. unfold outer_test; ops. unfold Rltb. destruct Rlt_dec; [discriminate | intros _]. lra.
+  Qed.
+
+  (* C10_subsolv_exit: if the inner loop of the last epsi ended because its residual test failed (not because ittt
+     reached maxittt), every component of the residual at the returned point is at most 0.9*epsi_last in magnitude,
+     and epsimin < epsi_last <= 10*epsimin *)
+  Theorem subsolv_exit fuel epsimin x0 st e :
+    subsolv newton norm D fuel epsimin x0 = Some (st, e, true) ->
+    residumax (residual_st D e st) <= 9 / 10 * e /\ epsimin < e <= 10 * epsimin.
+  Proof. intros E. unfold subsolv in E. eapply outer_exit; [exact E | discriminate]. Qed.
+
+  Lemma residumax_bounds (r : list R) x : In x r -> Rabs x <= residumax r.
+  Proof. intros Hx. unfold residumax. apply lmax_ge. change (@nabs R NumOrdR) with Rabs. apply in_map, Hx. Qed.
+End LoopP.
+
+(* ------------------------------------------------------------------ one MMA iteration, end to end *)
+(* mmasub builds alfa/beta from the current design; subsolv (any Newton directions, any acceptance decisions) is run on
+   them starting from x0 = xval; the design it returns has the right length, lies strictly inside (alfa, beta), hence in
+   [xmin, xmax], and differs from xval by at most move*(xmax - xmin) in every component. *)
+Theorem iteration_within_bounds
+  (p : asypar R) (v : version) (xval xmin xmax move : list R) (xold1 xold2 offset : option (list R))
+  (g : list R) (dg : list (list R))
+  (newton : sdata R -> R -> sstate R -> sstate R) (norm : list R -> R) (D : sdata R) :
+  let n := length xval in
+  let out := mmasub_vec p v xval xmin xmax move xold1 xold2 offset g dg in
+  (forall j, (j < n)%nat -> nthK xmin j <= nthK xval j <= nthK xmax j /\ nthK xmin j < nthK xmax j) ->
+  (forall j, (j < n)%nat -> 0 < nthK move j) ->
+  0 < albefa p < 1 -> 0 < asyinit p -> 0 < asybound p ->
+  (forall o j, offset = Some o -> (j < n)%nat -> 0 < nthK o j) ->
+  d_alfa D = o_alfa out -> d_beta D = o_beta out ->
+  (forall j, (j < n)%nat -> nthK (o_alfa out) j + 2 * margin <= nthK (o_beta out) j) ->
+  (forall e st, length (sx (newton D e st)) = length (sx st)) ->
+  forall fuel epsimin r, subsolv newton norm D fuel epsimin (Some xval) = Some r ->
+  let x := sx (fst (fst r)) in
+  length x = n /\
+  forall j, (j < n)%nat ->
+    nthK (o_alfa out) j < nthK x j < nthK (o_beta out) j /\
+    nthK xmin j <= nthK x j <= nthK xmax j /\
+    Rabs (nthK x j - nthK xval j) <= nthK move j * (nthK xmax j - nthK xmin j).
+Proof.
+  intros n out Hbox Hmove Hal Hin Hbd Hoff Ea Eb Hmargin Hshape fuel epsimin r E x.
+  destruct (out_lengths p v xval xmin xmax move xold1 xold2 offset g dg) as [_ [_ [_ [La [Lb _]]]]].
+  fold out in La, Lb. fold n in La, Lb.
+  assert (interior D (init_state D (Some xval))) as I0.
+  { apply init_interior; [rewrite Ea, Eb; lia|]. rewrite Ea, Eb. split; [lia | exact Hmargin]. }
+  pose proof (subsolv_interior newton norm D Hshape fuel epsimin (Some xval) r I0 E) as [[L1 [L2 Hx]] _].
+  fold x in L1, L2, Hx. rewrite Ea in L1, Hx. rewrite Eb in Hx.
+  split; [lia|]. intros j Hj. specialize (Hx j ltac:(lia)).
+  pose proof (vec_box_move_asymptotes p v xval xmin xmax move xold1 xold2 offset g dg Hbox Hmove Hal Hin Hbd Hoff j Hj)
+    as [[B1 B2] [[M1 M2] _]]. fold out in B1, B2, M1, M2.
+  split; [exact Hx|]. split; [lra|]. apply Rabs_le. lra.
+Qed.
